@@ -25,9 +25,22 @@ def run(ctx):
                 if not common.compile_check(ctx, g, s, c):
                     continue
                 jobs += js
-    jobs.sort(key=lambda j: j.name)
+    # unit obligations: yyinput()/yyunput() from an arbitrary in-action buffer state, with refills
+    u = [s for s in corpus.specs(tag='hist') if s.name in ('h_words', 'h_nl')]
+    u = common.select(ctx, u)
+    for s in u:
+        for c in ([C('Cem')] if quick else [C('Cem'), C('r', api='r'), C('Cfe', ['-Cfe'])]):
+            for (cap, m, nops) in ([(3, 2, 1), (3, 2, 2)] if quick else [(3, 2, 1), (4, 3, 1), (3, 2, 2), (4, 2, 3)]):
+                js, g = E.g2_jobs(ctx, s, c, cap=cap, m=m, nops=nops, timeout=(300 if quick else 1800),
+                                  extra_options=(['yylineno'] if s.name == 'h_nl' else []))
+                if not g.ok:
+                    common.gen_ok(ctx, g, s, c, 'G2')
+                    continue
+                jobs += js
+    jobs.sort(key=lambda j: (0 if j.meta.get('engine') == 'G2' else 1, j.name))
     ctx.run_cbmc(jobs)
     common.std_assumptions(ctx)
     ctx.assume('one edit per action; after the step the unread input of the scanner is asserted to be exactly the edited stream, the state from which the first-token obligations (C01) apply to the next call')
     ctx.assume('yyunput only within the push-back room of a full user-owned buffer (token of at least two characters consumed), as the property states')
-    ctx.out_of_bound.append('edits combined with buffer refills (C03 harness has no edits); tokens longer than 4 bytes')
+    ctx.assume('G2: yyinput()/yyunput() are run as units from an arbitrary in-action buffer state (capacity <= 4, any fill, token, status, <= 3 further source bytes in any chunks); yyunput may stop with the push-back overflow error only when fewer than two bytes are free in front of the scan position after moving the text up')
+    ctx.out_of_bound.append('yymore/yyless across refills (yyless never touches the buffer machinery); more than 3 consecutive edits; %array scanners and the c99 back end in the unit obligations (c99 reads through its own yyread(), not YY_INPUT); tokens longer than 4 bytes')
